@@ -119,6 +119,17 @@ def _run_sphere(case):
     fs = calc_field(det, sp, illum_polarization=(1, 0), theory=Tmatrix(), **a).values
     resid["equal_axes_spheroid"] = relmax(fs, ft)
     resid["equal_axes_spheroid_vs_mie"] = relmax(fs, fm)
+    # the next particle differs from the previous one ONLY in absorption (then only in the real part, then back): state
+    # that the Fortran code keeps between calls must not leak from one particle into the next
+    from holopy.scattering import Sphere
+    worst = 0.0
+    n0 = complex(s.n)
+    for nn in (complex(n0.real, n0.imag + 0.07), complex(n0.real * 1.01, n0.imag + 0.07), n0 if n0.imag else n0.real):
+        sv = Sphere(n=nn, r=s.r, center=(0, 0, 0))
+        a_t = calc_field(det, sv, illum_polarization=(1, 0), theory=Tmatrix(), **a).values
+        a_m = calc_field(det, sv, illum_polarization=(1, 0), theory=far, **a).values
+        worst = max(worst, relmax(a_t, a_m))
+    resid["sphere_field@one_input_changed"] = worst
     return {"resid": resid, "flags": {}, "fmax": fnum(float(np.abs(fm).max()))}
 
 
@@ -187,7 +198,27 @@ def _run_shape(case):
     Fy = Eth * np.cos(th) * np.sin(ph) + Eph * np.cos(ph)
     Fz = -Eth * np.sin(th)
     resid["field_from_smat"] = relmax(F0, np.stack([Fx, Fy, Fz], axis=1))
-    return {"resid": resid, "flags": {}, "fmax": fnum(float(np.abs(F0).max()))}
+    # the same invariances through the theory object's own methods, the orientation being a float array that the caller
+    # keeps and re-uses (calc_* copy the scatterer first, which would hide an orientation modified in place)
+    from holopy.scattering.scatterer import Spheroid, Cylinder
+    from vf.monitors import digest
+    flags = {}
+    rot = np.array(spec["rot"], dtype=float)
+    mk = (lambda r: Spheroid(n=scat.cnum(spec["n"]), r=tuple(spec["r"]), rotation=r, center=tuple(spec["c"]))) if spec["t"] == "spheroid" else \
+         (lambda r: Cylinder(n=scat.cnum(spec["n"]), h=spec["h"], d=spec["d"], rotation=r, center=tuple(spec["c"])))
+    sA = mk(rot)
+    pos = np.vstack([np.full(th.size, kr), th, ph])
+    d0 = digest(sA)
+    tm = Tmatrix()
+    T0 = tm.raw_scat_matrs(sA, pos, medium_wavevec=k, medium_index=o["medium_index"])
+    T1 = tm.raw_scat_matrs(sA, pos, medium_wavevec=k, medium_index=o["medium_index"])
+    flags["theory_level_repeatable"] = bool(np.array_equal(T0, T1))
+    flags["theory_level_scatterer_untouched"] = bool(digest(sA) == d0 and np.array_equal(rot, np.array(spec["rot"], dtype=float)))
+    T2 = tm.raw_scat_matrs(mk(rot + np.array([1.234, 0.0, 0.0])), pos, medium_wavevec=k, medium_index=o["medium_index"])
+    resid["spin_smat@theory_level"] = relmax(T2, T0)
+    T3 = Tmatrix().raw_scat_matrs(mk(tuple(spec["rot"])), pos, medium_wavevec=k, medium_index=o["medium_index"])
+    resid["array_vs_tuple_rotation"] = relmax(T3, T0)
+    return {"resid": resid, "flags": flags, "fmax": fnum(float(np.abs(F0).max()))}
 
 
 def _run_hostile(case):
@@ -228,7 +259,7 @@ def _run_hostile(case):
 
 TOL = {"sphere_field": 5e-6, "sphere_smat": 5e-6, "sphere_field_cart": 5e-6, "equal_axes_spheroid": 5e-6, "equal_axes_spheroid_vs_mie": 5e-6,
        "lens_tmatrix_vs_mie": 5e-6, "spin_smat": 0.0, "spin_field": 0.0, "reverse_smat": 5e-6, "reverse_field": 5e-6, "rotate_smat": 5e-6,
-       "mirror_smat": 5e-6, "mirror_field": 5e-6, "field_from_smat": 1e-9}
+       "mirror_smat": 5e-6, "mirror_field": 5e-6, "field_from_smat": 1e-9, "spin_smat@theory_level": 0.0, "sphere_field@one_input_changed": 5e-6, "array_vs_tuple_rotation": 0.0}
 
 
 def judge(case, obs):
@@ -238,6 +269,9 @@ def judge(case, obs):
             if oc == "nonfinite":
                 out.append({"mech": "hostile.nonfinite.%s" % nm, "detail": "returned non-finite values without raising; %s" % {x: case[x] for x in case if x in ("what", "x", "aspect", "m", "rot", "det_angles")}})
         return out
+    for k, v in obs.get("flags", {}).items():
+        if not v:
+            out.append({"mech": "%s.%s" % (case["kind"], k), "detail": "flag %s false; %s" % (k, {x: case[x] for x in case if x in ("scat",)})})
     for k, v in obs["resid"].items():
         if not v <= TOL[k]:
             out.append({"mech": "%s.%s" % (case["kind"], k), "detail": "%s=%.3e > %.0e; %s" % (k, v, TOL[k], {x: case[x] for x in case if x in ("sphere", "scat", "alpha", "la")})})
